@@ -154,12 +154,25 @@ Fails(ev, r) ==
     [] ev.e = "Acc" -> AccFails(ev, r)
     [] OTHER -> {<<"ANY", "H:unknown event kind">>}
 
+(* unclaimed conformance fact: byte-exact layout of the formats Wire.tla specifies *)
+WireFmt == INSTANCE Wire
+WireNote(ev) ==
+  IF ev.e = "Enc" /\ ev.codec \in WireFmt!WireCodecs /\ ev.fault = 0 /\ Len(ev.xs) <= 40
+     /\ Accepts(ev.codec, ev.param, ev.xs)
+  THEN LET want == WireFmt!Enc(ev.codec, ev.xs)
+           k == Len(ev.hdr)
+           same == Len(want) = ev.written /\ k <= Len(want) /\ SubSeq(want, 1, k) = ev.hdr
+       IN PrintT(<<"NOTE", "wire-checked", 1>>)
+          /\ (IF same THEN TRUE ELSE PrintT(<<"NOTE", "wire-drift-" \o ev.codec, 1>>))
+  ELSE TRUE
+
 Init == l = 1 /\ reg = 0
 Consume ==
   /\ l <= NT
   /\ LET ev == Tr[l]
          fs == Fails(ev, reg)
      IN /\ \A x \in fs : PrintT(<<"REJECT", l, x[1], x[2]>>)
+        /\ WireNote(ev)
         /\ reg' = IF ev.e = "Enc" THEN l ELSE reg
   /\ l' = l + 1
 Next == Consume
